@@ -12,13 +12,18 @@
       whatever the instance simplified before (any cache satisfying [cache_inv], which the empty cache
       does and every call preserves), a returned result is the cache-free result of that expression
       alone: cache transparency, history independence, idempotence through the cache.
-    The cache theorems are stated for calls of the memoising driver that return.  The two cache
+    - COMPLETENESS of the memoising driver ([C13_cached_complete], [C13_cached_iff]): from every cache
+      reachable from a fresh instance by returning calls it returns exactly when the cache-free driver
+      does, with the same result; with termination this gives [C13_simplifier_total]: on every
+      well-typed expression without a product wider than 128 bits, after ANY history, the memoising
+      driver returns (given enough fuel) THE result, which is well-typed, equivalent and a fixed point.
+    The two cache
     CONTAINERS are abstracted to the finite-map interface they share; their agreement is checked by the
     correspondence (results and final cache contents of both containers against the model), not proved.
     Run time is not part of the statement: the fuel bound [2 * mu e] is exponential in the bit widths. *)
 From Coq Require Import List.
 From Patronus Require Import Simplify SimplifyFix SimplifyCache SimplifyCacheProofs SimplifyBuilders
-     SimplifyTermMeasure SimplifyTermRules3 SimplifyTerm SimplifyTermNoPanic1 SimplifyTermNoPanic.
+     SimplifyTermMeasure SimplifyTermRules3 SimplifyTerm SimplifyTermNoPanic1 SimplifyTermNoPanic SimplifyCacheComplete.
 Import ListNotations.
 
 (** ** termination *)
@@ -84,6 +89,46 @@ Theorem C13_cached_idempotent :
     simplify_cached f1 c1 e = (c1', SOk r) -> simplify_cached f2 c2 r = (c2', SOk r') -> r' = r.
 Proof. exact simplify_cached_idempotent. Qed.
 Print Assumptions C13_cached_idempotent.
+
+(** ** completeness of the memoising driver, and the whole property in one statement *)
+Theorem C13_reachable_good : forall c : cache, reachable c -> cache_good c /\ cache_inv c.
+Proof. intros c H. pose proof (reachable_good c H) as G. split; [exact G|exact (cache_good_inv c G)]. Qed.
+Print Assumptions C13_reachable_good.
+
+Theorem C13_cached_complete :
+  forall (c : cache) (e r : expr), reachable c -> (exists n, simp n e = SOk r) ->
+  exists F, forall fuel, (F <= fuel)%nat -> exists c', simplify_cached fuel c e = (c', SOk r) /\ reachable c'.
+Proof. exact simplify_cached_complete_reachable. Qed.
+Print Assumptions C13_cached_complete.
+
+Theorem C13_cached_iff :
+  forall (c : cache) (e r : expr), cache_good c ->
+  ((exists n, simp n e = SOk r) <-> exists fuel c', simplify_cached fuel c e = (c', SOk r)).
+Proof. exact simplify_cached_iff. Qed.
+Print Assumptions C13_cached_iff.
+
+(** terminating, idempotent, cache-transparent: for every well-typed expression without a product wider than
+    128 bits there is ONE result [r] (well-typed, equivalent, a fixed point of the driver) such that the
+    memoising driver, after any history of returning calls with the same instance and with any sufficient fuel,
+    returns [r] - and simplifying [r] again, with any instance reachable in this way, returns [r]. *)
+Theorem C13_simplifier_total :
+  forall e : expr, wt e = true -> nwm e = true ->
+  exists r, ok_rw e r /\
+    (forall c, reachable c -> exists F, forall fuel, (F <= fuel)%nat ->
+        exists c', simplify_cached fuel c e = (c', SOk r) /\ reachable c') /\
+    (forall c, reachable c -> exists F, forall fuel, (F <= fuel)%nat ->
+        exists c', simplify_cached fuel c r = (c', SOk r) /\ reachable c') /\
+    (forall c fuel c' r', cache_inv c -> simplify_cached fuel c e = (c', SOk r') -> r' = r).
+Proof.
+  intros e Hwt Hn.
+  destruct (simp_result e Hwt Hn _ (Nat.le_refl _)) as (r & Hr & Hrw & _ & _ & (m & Hm)).
+  exists r. split; [exact Hrw|]. split; [|split].
+  - intros c Hc. apply simplify_cached_complete_reachable; [exact Hc|eexists; exact Hr].
+  - intros c Hc. apply simplify_cached_complete_reachable; [exact Hc|eexists; exact Hm].
+  - intros c fuel c' r' Hinv H. destruct (simplify_cached_sound _ _ _ _ _ Hinv H) as [_ [n Hn']].
+    eapply simp_deterministic; eassumption.
+Qed.
+Print Assumptions C13_simplifier_total.
 
 (** non-vacuity: a history in which the second member is rewritten through the entry of the first *)
 Example C13_example_history :
